@@ -272,10 +272,12 @@ def judge_call(ctx, CH, state, st, held):
                 if st["valid"]:
                     mon.check("history:valid input accepted while on", raised is None, observed=repr(raised), expected="no exception",
                               detail=label, finding=None)
-                    mon.check("history:checks run while on", len(ctx.calls) > 0, observed=len(ctx.calls), detail=label)
+                    # how the library organises its checking is not part of the property: observed, not judged
+                    mon.config("while on: a _check_* function was invoked" if ctx.calls else "while on: no _check_* invocation seen")
                 else:
-                    ok = isinstance(raised, ValueError) and by_check
-                    mon.check("history:invalid input rejected while on", ok, observed=repr(raised), expected="ValueError from the input check",
+                    ok = isinstance(raised, ValueError)
+                    mon.config("rejection raised inside a _check_* function" if by_check else "rejection raised elsewhere")
+                    mon.check("history:invalid input rejected while on", ok, observed=repr(raised), expected="ValueError",
                               detail=label)
             else:
                 mon.check("history:no check runs while off", len(ctx.calls) == 0, observed=list(ctx.calls), expected="no _check_* invocation",
